@@ -114,6 +114,8 @@ func RunPlan(t *testing.T, p *Plan) (res *RunResult) {
 				res.InfraErr = "panic: " + s + "\n" + string(debug.Stack())
 			}
 		}()
+		seedRuntime(p.Seed)
+		defer func() { runtimeVerifSeed = 0 }()
 		synctest.Test(t, func(t *testing.T) {
 			if p.Start.Before(BubbleEpoch) {
 				res.InfraErr = "plan start before bubble epoch"
@@ -149,7 +151,14 @@ func RunPlan(t *testing.T, p *Plan) (res *RunResult) {
 			}
 			for idx := range p.Actions {
 				a := &p.Actions[idx]
-				sleepUntil(p.Start.Add(a.At))
+				if at := p.Start.Add(a.At); time.Now().After(at) {
+					// the driver was busy past this action's time (a restart or reload
+					// that takes a while): late actions keep their order and stay at
+					// distinct instants, as requests of a client that was kept waiting
+					time.Sleep(time.Millisecond)
+				} else {
+					sleepUntil(at)
+				}
 				synctest.Wait()
 				w.CurAction = idx
 				w.exec(idx, a)
